@@ -104,6 +104,14 @@ CHECKS = {
         "Words never full-match a PLSS keyword (harness table); a word starting with n/s/e/w is not placed directly after a number; words ending in a section keyword are not used.",
         "DESIGN.md section 4 C04",
     ),
+    "C20": (
+        "seeded Hypothesis generation; differential between parse modes on descriptions where the mode is not needed; model oracle for sec_within",
+        "segment on/off on single-layout descriptions, both colon modes on fully-coloned descriptions, colon-less descriptions under "
+        "default / cautious / required (config and keyword channels), and generated (leading, section(s), trailing, Twp/Rge placement) "
+        "cases under sec_within with the expected tracts computed from the parts.",
+        "Leading/trailing texts and blocks come from the harness vocabulary.",
+        "DESIGN.md section 4 C20",
+    ),
 }
 
 NOT_BUILT = {}
